@@ -67,6 +67,10 @@ def _negated(a):
 def transc_axioms(terms, uf, rounds=2):
     """ground instances for the uninterpreted exp/ln/log10/sqrt/pow10 occurring in `terms`"""
     ax = []
+    if 'u_pow' in uf:
+        # a**b with a non-integer exponent is uninterpreted; the one fact used about it: positive for a positive base
+        xx, yy = z3.Real('x?p'), z3.Real('y?p')
+        ax.append(z3.ForAll([xx, yy], z3.Implies(xx > 0, uf['u_pow'](xx, yy) > 0), patterns=[uf['u_pow'](xx, yy)]))
     if not any(n in uf for n in TRANSC):
         return ax
     F = {n: (uf[n] if n in uf else z3.Function(n, REAL, REAL)) for n in TRANSC}
@@ -82,6 +86,7 @@ def transc_axioms(terms, uf, rounds=2):
         ax.append(pow10(z3.RealVal(1)) == 10)
     if 'u_sqrt' in uf:
         ax.append(z3.ForAll([x], z3.Implies(x >= 0, z3.And(sqrt(x) >= 0, sqrt(x) * sqrt(x) == x)), patterns=[sqrt(x)]))
+        ax.append(z3.ForAll([x], z3.Implies(x > 0, sqrt(x) > 0), patterns=[sqrt(x)]))
     if 'u_ln' in uf:
         ax.append(ln(z3.RealVal(1)) == 0)
     if 'u_log10' in uf:
